@@ -17,4 +17,13 @@ Shape33 == <<
   [name |-> "ac.v1", files |-> << [name |-> "a", decls |-> <<"Thing">>, refs |-> << <<"ab.v1", "Other">>, <<"aa.v1", "Other">> >>],
                                   [name |-> "b", decls |-> <<"Other">>, refs |-> << <<"ac.v1", "Third">> >>],
                                   [name |-> "c", decls |-> <<"Third">>, refs |-> << <<"ab.v1", "Thing">> >>] >>] >>
+\* two imported packages share the short name "billing" (R "Packages and Imports": an import brings the package in by its
+\* last name before the version); a third element "short" marks a reference written through that short name. Each file
+\* of user.v1 imports both packages (one through a fully qualified reference) in a different order; the reference the
+\* shape records is the later import, which is what the short name means while both claim it.
+ShapeClash == <<
+  [name |-> "xa.billing.v1", files |-> << [name |-> "a", decls |-> <<"Thing">>, refs |-> << >>] >>],
+  [name |-> "xb.billing.v1", files |-> << [name |-> "a", decls |-> <<"Thing">>, refs |-> << >>] >>],
+  [name |-> "user.v1", files |-> << [name |-> "a", decls |-> <<"Holder">>, refs |-> << <<"xa.billing.v1", "Thing">>, <<"xb.billing.v1", "Thing", "short">> >>],
+                                    [name |-> "b", decls |-> <<"Other">>,  refs |-> << <<"xb.billing.v1", "Thing">>, <<"xa.billing.v1", "Thing", "short">> >>] >>] >>
 =============================================================================
